@@ -62,7 +62,7 @@ func (s *verifSink) Write(p []byte) (int, error) {
 		}
 	}
 	verifAuditObserveWrite()
-	s.writes = append(s.writes, p)
+	s.writes = append(s.writes, append([]byte(nil), p...)) // the encoder reuses its buffer
 	ghostLog("sink.write")
 	return len(p), nil
 }
